@@ -936,7 +936,7 @@ def inline_walk(prog, ctx, depth=3, _path=()):
         if any(p[0] == rk for p in _path):
             continue
         idx = len(blk["stmts"])
-        params = {i + 1: ctx.T.operand(a, bi, idx) for i, a in enumerate(t["args"])}
+        params = {i + 1: _ctor_norm(prog, ctx.T.operand(a, bi, idx)) for i, a in enumerate(t["args"])}
         sub = ctx.sub(cb, params=params)
         yield from inline_walk(prog, sub, depth - 1, _path + ((b.key, bi, "call"),))
 
@@ -951,7 +951,34 @@ def _closure_elem_params(ctx, cterm):
     for bi, t, args in call_sites(ctx, lambda n: "Iterator::" in n and n.split("::")[-1] in ELEM_CLOSURE_METHODS):
         if len(args) == 2 and args[1][0] == "closure" and args[1][1] == cterm[1]:
             return {2: ("payload", ("call", "std::iter::Iterator::next", (args[0],)), "Ok/Some")}
+    # Option / Result combinators: the closure receives the Some / Ok payload of the receiver
+    for bi, t, args in call_sites(ctx, lambda n: n in ("std::option::Option::map", "std::option::Option::and_then", "std::option::Option::filter", "std::option::Option::is_some_and", "std::result::Result::map", "std::result::Result::and_then")):
+        if len(args) == 2 and args[1][0] == "closure" and args[1][1] == cterm[1]:
+            return {2: ("payload", args[0], "Ok/Some")}
     return None
+
+
+def _ctor_norm(prog, t, _d=0):
+    """an argument that is the result of local constructor / builder calls
+    (`Transfer::new(to, coin).with_reply_id(id)`) is passed on as the struct value they build, so
+    that the callee's reads of its fields resolve to the caller's terms.  Only calls that return a
+    freshly built struct of the workspace are looked through; every other call stays as written."""
+    from .mir import intern
+    if t[0] != "call" or _d > 3:
+        return t
+    cb = _callee_body(prog, t)
+    if cb is None or not _is_pure_small(prog, cb):
+        return t
+    args = tuple(_ctor_norm(prog, a, _d + 1) for a in t[2])
+    c = Ctx(cb, params={i + 1: a for i, a in enumerate(args)}).settle()
+    rt = c.T.return_term()
+    if contains(rt, lambda s_: s_[0] in ("cycle", "undef")) and not any(contains(a, lambda s_: s_[0] in ("cycle", "undef")) for a in args):
+        return t
+    rt = resolve_terms(prog, rt, 0)
+    alts = rt[1] if rt[0] == "phi" else (rt,)
+    if all(a[0] == "agg" and a[1].split("::")[0] in prog.crates and a[1].split("::")[-1] not in ("Result", "Option") for a in alts):
+        return intern(rt)
+    return t
 
 
 def storage_ops_deep(prog, ctx, depth=3, raw=False):
